@@ -445,5 +445,134 @@ Proof.
       destruct t; cbn [id_ok st_done st_k] in *; [exact Ht|right; exact Ht|exact Ht].
 Qed.
 
+(* ---- references: every edge origin / go_to target is "start", the id of a row, or promised *)
+Definition allowed (ids P : list tidU) (t : tidU) : Prop := t = TStart \/ In t ids \/ In t P.
+Definition RefsI (ids P : list tidU) (rows : list trow) : Prop :=
+  Forall (fun r => Forall (allowed ids P) (row_refs r)) rows.
+Definition Refs (rows : list trow) (P : list tidU) : Prop := RefsI (map r_id rows) P rows.
+
+(* the rows of a node that is being visited (on the DFS stack) are promised *)
+Definition Promise (st : state U) (P : list tidU) : Prop :=
+  forall c csn, find_node ueqb nodes (n_uuid c) = Some c ->
+                In (n_uuid c) (st_vis st) -> ~ In (n_uuid c) (st_done st) ->
+                short_name c = Ok csn -> In (TNode (n_uuid c) csn) P.
+
+Lemma allowed_mono ids ids' P P' t :
+  incl ids ids' -> (forall x, In x P -> In x ids' \/ In x P') -> allowed ids P t -> allowed ids' P' t.
+Proof.
+  intros Hi Hp [H|[H|H]]; [left; exact H|right; left; apply Hi, H|].
+  destruct (Hp _ H) as [H1|H1]; [right; left; exact H1|right; right; exact H1].
+Qed.
+
+Lemma RefsI_mono ids ids' P P' rows :
+  incl ids ids' -> (forall x, In x P -> In x ids' \/ In x P') -> RefsI ids P rows -> RefsI ids' P' rows.
+Proof.
+  intros Hi Hp H. unfold RefsI in *. eapply Forall_impl; [|exact H]. intros r Hr. cbn beta in *.
+  eapply Forall_impl; [|exact Hr]. intros t. apply allowed_mono; assumption.
+Qed.
+
+Lemma Promise_ext st st' P : Ext st st' -> Promise st P -> Promise st' P.
+Proof.
+  intros [v1 d1 nd1 nv1 k1 i1] Hp c csn Hf Hv Hd Hs. apply (Hp c csn Hf); [|intros H; apply Hd, d1, H|exact Hs].
+  destruct (nv1 _ Hv) as [H|H]; [exact H|contradiction].
+Qed.
+
+Definition rec_refs (rec : node U -> edge U tidU -> state U -> res (state U)) : Prop :=
+  forall c e s s' P, find_node ueqb nodes (n_uuid c) = Some c -> ~ In (n_uuid c) (st_vis s) ->
+    Promise s P -> Refs (st_rows s) P -> allowed (map r_id (st_rows s)) P (e_from e) ->
+    rec c e s = Ok s' -> Refs (st_rows s') P.
+
+Lemma step_refs rec : rec_refs rec ->
+  forall st p st' P, Promise st P -> Refs (st_rows st) P -> In (e_from (snd p)) P ->
+    step ueqb nodes rec st p = Ok st' -> Refs (st_rows st') P.
+Proof.
+  intros Hrec st [d e] st' P Hp Hr He H. unfold step in H. cbn [fst snd] in *.
+  destruct d as [d|]; [|inversion H; subst; exact Hr].
+  destruct (find_node ueqb nodes d) as [child|] eqn:Efn; [|discriminate].
+  pose proof (find_node_uuid _ _ _ Efn) as Hu. rewrite <- Hu in Efn.
+  destruct (mem_u ueqb (n_uuid child) (st_done st)) eqn:Ed.
+  - destruct (short_name child) as [csn|er]; cbn [bind] in H; [|discriminate].
+    destruct (prepend_edge ueqb _ e (st_rows st)) as [rows'|] eqn:Ep; [|discriminate].
+    inversion H; subst st'. cbn [st_rows]. unfold Refs, RefsI.
+    rewrite (prepend_edge_ids _ _ _ _ Ep).
+    apply (prepend_edge_refs _ _ _ _ _ (or_intror (or_intror He)) Hr Ep).
+  - destruct (mem_u ueqb (n_uuid child) (st_vis st)) eqn:Ev.
+    + destruct (short_name child) as [csn|er] eqn:Es; cbn [bind] in H; [|discriminate].
+      inversion H; subst st'. cbn [st_rows]. unfold Refs. cbn [map]. constructor.
+      * unfold row_refs, goto_row. cbn [r_edges r_goto map app].
+        constructor; [right; right; exact He|]. constructor; [|constructor].
+        right; right. apply (Hp child csn Efn (mem_u_true _ _ Ev) (mem_u_false _ _ Ed) Es).
+      * eapply RefsI_mono; [| |exact Hr]; [apply incl_tl, incl_refl|intros x Hx; right; exact Hx].
+    + apply (Hrec _ _ _ _ _ Efn (mem_u_false _ _ Ev) Hp Hr (or_intror (or_intror He)) H).
+Qed.
+
+Lemma foldM_step_refs rec : rec_ext rec -> rec_refs rec ->
+  forall prs st st' P, Promise st P -> Refs (st_rows st) P ->
+    Forall (fun p => In (e_from (snd p)) P) prs ->
+    foldM (step ueqb nodes rec) prs st = Ok st' -> Refs (st_rows st') P.
+Proof.
+  intros Hext Hrec prs. induction prs as [|p rest IH]; intros st st' P Hp Hr Hf H; cbn [foldM] in H.
+  - inversion H; subst. exact Hr.
+  - inversion Hf as [|p0 l0 Hf1 Hf2]; subst.
+    destruct (step ueqb nodes rec st p) as [st1|e] eqn:Es; [|discriminate].
+    apply (IH st1 st' P); [|apply (step_refs rec Hrec _ _ _ _ Hp Hr Hf1 Es)|exact Hf2|exact H].
+    apply (Promise_ext st); [apply (step_ext rec Hext _ _ _ Es)|exact Hp].
+Qed.
+
+Lemma visit_refs : forall fuel, rec_refs (visit ueqb nodes fuel).
+Proof.
+  induction fuel as [|fuel IH]; intros n pe st st' P Hfn Hv Hp Hr Hpe H; cbn [visit] in H; [discriminate|].
+  destruct (short_name n) as [sn|e] eqn:Esn; cbn [bind] in H; [|discriminate].
+  destruct (initiate_row_models n sn pe) as [rms|e] eqn:Ei; cbn [bind] in H; [|discriminate].
+  destruct (exit_edge_pairs ueqb n (last_row_id n sn)) as [prs|e] eqn:Ee; cbn [bind] in H; [|discriminate].
+  destruct (foldM _ (rev prs) _) as [st1|e] eqn:Ef; cbn [bind] in H; [|discriminate].
+  pose proof (foldM_step_ext _ (visit_ext fuel) _ _ _ Ef) as [v1 d1 nd1 nv1 k1 i1].
+  set (P' := last_row_id n sn :: TNode (n_uuid n) sn :: P).
+  apply (foldM_step_refs _ (visit_ext fuel) IH _ _ _ P') in Ef.
+  - cbn [st_vis st_done st_rows st_k] in *.
+    pose proof (initiate_ids _ _ _ _ Ei) as Hids. pose proof (initiate_refs _ _ _ _ Ei) as Hrr.
+    inversion H; subst st'. cbn [st_rows]. unfold Refs, RefsI. rewrite map_app, Hids.
+    apply Forall_app. split.
+    + eapply Forall_impl; [|exact Hrr]. intros r Hrow. cbn beta in *.
+      eapply Forall_impl; [|exact Hrow]. intros t [Ht|Ht].
+      * subst t. eapply allowed_mono; [| |exact Hpe]; [|intros x Hx; right; exact Hx].
+        apply incl_appr. exact i1.
+      * right; left. rewrite Hids in Ht. apply in_or_app. left. exact Ht.
+    + eapply RefsI_mono; [| |exact Ef]; [apply incl_appr, incl_refl|].
+      intros x [Hx|[Hx|Hx]]; [subst x|subst x|right; exact Hx]; left; apply in_or_app; left.
+      * apply last_in_node_row_ids.
+      * apply first_in_node_row_ids.
+  - (* promise for the stack with n on it *)
+    intros c csn Hc Hvis Hdone Hs. cbn [st_vis st_done] in *.
+    destruct Hvis as [Hvis|Hvis].
+    + assert (c = n) by (rewrite <- Hvis in Hc; rewrite Hfn in Hc; inversion Hc; reflexivity).
+      subst c. rewrite Esn in Hs. inversion Hs; subst csn. right; left. reflexivity.
+    + right; right. apply (Hp c csn Hc Hvis Hdone Hs).
+  - cbn [st_rows]. eapply RefsI_mono; [apply incl_refl| |exact Hr]. intros x Hx. right. right; right. exact Hx.
+  - apply Forall_rev. apply exit_edge_pairs_from in Ee.
+    eapply Forall_impl; [|exact Ee]. intros p Hpf. cbn beta in Hpf. rewrite Hpf. left. reflexivity.
+Qed.
+
 End Dfs.
+
+(* ---- the temporary rows of a flow *)
+Lemma to_rows_tmp_ids nodes rows :
+  to_rows_tmp ueqb nodes = Ok rows ->
+  NoDup (map r_id rows) /\ ~ In TStart (map r_id rows) /\ Refs rows [].
+Proof.
+  unfold to_rows_tmp. destruct nodes as [|n0 rest].
+  - intros H; inversion H; subst. split; [constructor|]. split; [intros []|constructor].
+  - destruct (visit ueqb (n0 :: rest) _ n0 start_edge state0) as [st|e] eqn:Ev; cbn [bind]; [|discriminate].
+    intros H; inversion H; subst.
+    pose proof (visit_inv (n0 :: rest) (S (List.length (n0 :: rest))) n0 start_edge state0 st) as Hi.
+    destruct Hi as [Hnd Hok]; [intros []|intros []|split; constructor|exact Ev|].
+    split; [exact Hnd|]. split.
+    + intros Hin. rewrite Forall_forall in Hok. apply (Hok _ Hin).
+    + apply (visit_refs (n0 :: rest) (S (List.length (n0 :: rest))) n0 start_edge state0 st []); [|intros []| | | |exact Ev].
+      * cbn [find_node]. rewrite ueqb_refl. reflexivity.
+      * intros c csn _ [].
+      * constructor.
+      * left. reflexivity.
+Qed.
+
 End RowIds.
